@@ -357,6 +357,86 @@ def main(tier, seed):
             if canon(label) != canon(mlabel) or int(m.get("size", -1)) != int(r["size"]):
                 violations.append({"what": f"model and implementation print different labels for {shown}", "class": "corr", "no_input": True,
                                    "broken": "correspondence: U.label", "rec": dict(base, kind="corr", model=mlabel, model_size=m.get("size"), impl_size=r["size"])})
+    # --- labels of CommonUnitT / CommonPointUnitT: "EQUIV{a, b, ...}" where every item is a label of the SAME unit (the common
+    # unit written as a multiple of each distinct unscaled input), or a single ordinary label; judged by the exact gcd magnitude
+    by_dim = {}
+    for k in A.atoms:
+        if "gen_src" not in A.atoms[k] and own.get(k, True):
+            by_dim.setdefault(tuple(sorted(A.atoms[k]["dim"].items())), []).append(k)
+    dgroups = [g for g in by_dim.values() if len({A.sig(k) for k in g}) >= 2]
+    com_cases = []
+    while dgroups and len(com_cases) < (36 if tier == "quick" else 300):
+        g = rng.choice(dgroups)
+        n = rng.choice([2, 2, 3])
+        ks = []
+        for k in rng.sample(g, min(len(g), n)):
+            if A.sig(k) not in [A.sig(x) for x in ks]:
+                ks.append(k)
+        if len(ks) < 2:
+            continue
+        items = [("atom", k) if rng.random() < 0.6 else ("scale", ("atom", k), rng.choice(uexpr.SCALES[:6])) for k in ks]
+        point = all(not A.atoms[k]["has_origin"] for k in ks) is False and rng.random() < 0.5
+        if not point and any(A.atoms[k]["has_origin"] for k in ks) and rng.random() < 0.5:
+            point = True
+        com_cases.append((items, point))
+    if com_cases:
+        csrc = os.path.join(wd, "common_labels.cc")
+        with open(csrc, "w") as f:
+            f.write(PRELUDE % inc + gdefs + "\nint main() {\n")
+            for i, (items, point) in enumerate(com_cases):
+                tl = ", ".join(f"UT({uexpr.cxx(t, A, 'unit')})" for t in items)
+                f.write(f"  lab<au::{'CommonPointUnitT' if point else 'CommonUnitT'}<{tl}>>({i});\n")
+            f.write("  return 0;\n}\n")
+        rc, out = cxx(csrc, os.path.join(wd, "common_labels"), san=True, opt="-O0")
+        if rc != 0:
+            diag = "broken-ordering" if "Broken strict total ordering" in out else "other"
+            violations.append({"what": f"common-unit label harness does not compile [{diag}]", "class": "build-common", "no_input": True, "broken": "harness",
+                               "rec": {"kind": "build", "errors": [l for l in out.split("\n") if "error" in l][:3]}})
+        else:
+            o = run([os.path.join(wd, "common_labels")], env=UBSAN_ENV)[1]
+            stats["common_unit_labels"] = 0
+            stats["common_unit_equiv_labels"] = 0
+            for line in o.split("\n"):
+                if not line.startswith("L "):
+                    continue
+                i = int(line.split()[1])
+                r = kv(line)
+                items, point = com_cases[i]
+                label = bytes.fromhex(r["label"]).decode() if r["label"] != "-" else ""
+                shown = ("CommonPointUnitT<" if point else "CommonUnitT<") + ", ".join(uexpr.show(t) for t in items) + ">"
+                sems = [uexpr.sem(t, A) for t in items]
+                bases = set().union(*[set(m) for _, m in sems])
+                want_m = {b: min(Fraction(m.get(b, 0)) for _, m in sems) for b in bases}
+                want_m = {b: e for b, e in want_m.items() if e != 0}
+                want_d = {b: Fraction(e) for b, e in sems[0][0].items()}
+                stats["common_unit_labels"] += 1
+                base = {"tree": shown, "label": label}
+                if int(r["size"]) != int(r["len"]) + 1 or r["nul"] != "1" or r["same"] != "1":
+                    violations.append({"what": f"label of {shown}: reported size {r['size']} != length {r['len']} + 1, or not NUL-terminated / not deterministic",
+                                       "class": "size-common", "rec": dict(base, kind="size", impl=r)})
+                if point and any(A.atoms[k]["has_origin"] for t in items for k in uexpr.atoms_of(t)):
+                    continue        # the common POINT unit's magnitude also depends on the origin displacements (C10); size clause only
+                parts = [label]
+                if label.startswith("EQUIV{") and label.endswith("}"):
+                    parts = Parser(by_label).split_top(label[6:-1], ", ")
+                    stats["common_unit_equiv_labels"] += 1
+                    if len(parts) < 2:
+                        violations.append({"what": f"label {label!r} of {shown}: EQUIV{{}} with fewer than two members", "class": "grammar-common",
+                                           "rec": dict(base, kind="grammar")})
+                for part in parts:
+                    try:
+                        parsed = parser.unit(part)
+                    except Exception as e:      # noqa: BLE001
+                        violations.append({"what": f"label {label!r} of {shown} does not follow the documented grammar ({e})", "class": "grammar-common",
+                                           "rec": dict(base, kind="grammar", part=part)})
+                        continue
+                    if parsed is None:
+                        continue
+                    pd = {b: Fraction(e) for b, e in parsed[0].items() if Fraction(e) != 0}
+                    pm = {b: Fraction(e) for b, e in parsed[1].items() if Fraction(e) != 0}
+                    if pd != {b: e for b, e in want_d.items() if e != 0} or pm != want_m:
+                        violations.append({"what": f"the label {part!r} printed inside {label!r} for {shown} denotes a unit of different magnitude/dimension "
+                                                   f"than the common unit", "class": "foreign-label-common", "rec": dict(base, kind="foreign-common", part=part)})
     # --- IToA / UIToA on boundary and random 64-bit arguments
     uargs = sorted({0, 1, 9, 10, 11, 99, 100, 2 ** 31, 2 ** 32 - 1, 2 ** 63 - 1, 2 ** 63, 2 ** 64 - 1, 10 ** 19, 10 ** 18 - 1} |
                    {rng.randrange(0, 2 ** 64) for _ in range(60)} | {10 ** k for k in range(20)} | {10 ** k - 1 for k in range(1, 20)})
